@@ -19,7 +19,8 @@ def rev_panels(a, nx, ny):
     return np.asarray(a, dtype=object).reshape(nx - 1, ny - 1)[:, ::-1].reshape(-1)
 
 
-@job("c07.aero_full", ("C07",), cfgs=[dict(nx=2, ny=3, rotational=True), dict(nx=2, ny=3, rotational=False, _tier=T), dict(nx=3, ny=3, rotational=True, _tier=T)],
+@job("c07.aero_full", ("C07",), cfgs=[dict(nx=2, ny=3, rotational=True), dict(nx=2, ny=3, rotational=False, _tier=T), dict(nx=3, ny=3, rotational=True, _tier=T),
+                                         dict(nx=4, ny=3, rotational=False)],    # three chordwise panels: ring/horseshoe bookkeeping beyond one interior row
      ranges=RG, cost=30)
 def aero_full(env, nx, ny, rotational):
     """a full-span surface with arbitrary asymmetric geometry, sideslip and rotation rates vs its mirror image"""
